@@ -27,6 +27,9 @@ offset = st.one_of(
     st.tuples(gen.finite(-30, 30), gen.finite(-30, 30), gen.finite(-30, 30)).map(list),
     st.tuples(st.just(0.0), st.just(0.0), gen.finite(-30, 30)).map(list),
     st.sampled_from([[0.0, 0.0, 0.0], [10.0, 0.0, 0.0], [0.0, 7.0, 0.0], [3.0, 0.0, 1.0], [-4.0, 4.0, -2.5], [0.45, 0.0, 0.0], [0.6, 0.2, -0.2]]),
+    # offsets on the four half-axes and the diagonals of the particle's x,y plane (angles 0, 90, 180, 270, 45, ... of the polar form), with +0.0 and -0.0
+    st.tuples(st.sampled_from([[1, 0], [-1, 0], [0, 1], [0, -1], [1, 1], [-1, 1], [-1, -1], [1, -1]]), st.sampled_from([0.5, 3.0, 7.5, 10.0, 24.0]),
+              st.sampled_from([0.0, -0.0]), st.sampled_from([0.0, 4.0, -2.5])).map(lambda t: [t[0][0] * t[1] if t[0][0] else t[2], t[0][1] * t[1] if t[0][1] else t[2], t[3]]),
     st.tuples(gen.finite(-1, 1), gen.finite(-1, 1), gen.finite(-1, 1)).map(list),  # sub-pixel offsets: only some subunits need recentring
 )
 POSE = ["x", "y", "z", "shift_x", "shift_y", "shift_z", "phi", "theta", "psi"]
